@@ -94,7 +94,7 @@ def main():
             "add_only": True,
         },
         "engines": [{"name": "simworld", "path": "/verif/sim", "serves_properties": [c["property_id"] for c in checks],
-                     "kind_free_text": "deterministic simulation with fault injection: LD_PRELOAD libc shim (plan executor), cfg-guarded GC-schedule hook, seeded Python driver with reference models, replay files"}],
+                     "kind_free_text": "deterministic simulation with fault injection: LD_PRELOAD libc shim (plan executor: file, loader, clock, thread-id and two-process-schedule seams), cfg-guarded GC-schedule hook, seeded Python driver with reference models, replay files"}],
         "checks": checks,
         "not_applicable": na,
         "notes": "Exit codes: 0 held, 1 VIOLATION (replay file named), 2 harness error. VERIF_SEED (default 1) decides every generated world, plan and schedule. known_findings.json lists recorded defects; fix: commits in /repo are listed there as fixed entries.",
